@@ -41,6 +41,17 @@ func VxC06_BinomialArgs() {
 		return
 	}
 	ki := vx.Concretize(int(math.Floor(k)))
+	// PMF against C(N,k) P^k (1-P)^(N-k) with the coefficient in exact integers (concrete per (N, P, floor k))
+	if ki >= 0 && ki <= n {
+		want := float64(vxPascal(n, ki))
+		for i := 0; i < ki; i++ {
+			want *= p
+		}
+		for i := ki; i < n; i++ {
+			want *= 1 - p
+		}
+		vx.Assert(vx.Near(d.PMF(float64(ki)), want, 1e-10, 1e-14), "binomial PMF is C(N,k) P^k (1-P)^(N-k)")
+	}
 	vx.Assert(vx.SameBits(d.PMF(k), d.PMF(float64(ki))), "a non-integer k is treated as floor(k) by PMF")
 	if ki >= n {
 		vx.Assert(d.CDF(k) == 1, "CDF is 1 from the top of the support")
@@ -115,6 +126,11 @@ func VxC06_HypergeometricArgs() {
 		m1 += float64(j) * pj
 		m2 += float64(j) * float64(j) * pj
 	}
+	// PMF against the counting formula C(K,j) C(N-K,Draws-j) / C(N,Draws) in exact integers
+	for j := int(lo); j <= int(hi); j++ {
+		want := float64(vxPascal(K, j)*vxPascal(N-K, D-j)) / float64(vxPascal(N, D))
+		vx.Assert(vx.Near(d.PMF(float64(j)), want, 1e-10, 1e-12), "hypergeometric PMF is C(K,k) C(N-K,Draws-k) / C(N,Draws)")
+	}
 	vx.Assert(vx.Near(d.Mean(), m1, 1e-10, 1e-12), "Mean is the first moment of the PMF")
 	vx.Assert(vx.Near(d.Variance(), m2-m1*m1, 1e-9, 1e-10), "Variance is the second central moment of the PMF")
 }
@@ -156,4 +172,21 @@ func VxC06_CDFSumsPMF() {
 	}
 	// (that a non-integer k is treated as floor(k) is decided in VxC06_*Args; here the cell's integer is used)
 	vx.Assert(math.Abs(cdf(float64(ki))-sum) <= 1e-10, "CDF(k) is the sum of PMF over the integers up to floor(k)")
+}
+
+// vxPascal is the binomial coefficient by Pascal's rule in exact integers (0 outside 0..n).
+func vxPascal(n, k int) int64 {
+	if k < 0 || k > n || n < 0 {
+		return 0
+	}
+	row := []int64{1}
+	for i := 1; i <= n; i++ {
+		next := make([]int64, i+1)
+		next[0], next[i] = 1, 1
+		for j := 1; j < i; j++ {
+			next[j] = row[j-1] + row[j]
+		}
+		row = next
+	}
+	return row[k]
 }
